@@ -159,6 +159,44 @@ def strip_ref(root):
     return (l, p.replace('&', '').replace('*', ''))
 
 
+ONCE_CONSUMERS = ('std::option::Option', '<std::option::Option', 'std::result::Result', '<std::result::Result', 'std::bool::', 'core::bool::', 'std::mem::', 'std::cell::',
+                  'std::sync::Once', 'std::thread::LocalKey')
+
+
+def closure_runs_repeatedly(mir, fn):
+    """the closure body `fn` is handed (by its creator) to something other than a run-at-most-once consumer (Option / Result combinators,
+    bool::then, LocalKey::with ..): iterator adapters and consumers call it once per element"""
+    body = mir.bodies[fn]
+    parent = mir.bodies.get(body.parent) if body.parent else None
+    if parent is None:
+        return True
+    holders = set()
+    for blk in parent.blocks:
+        for st in blk['stmts']:
+            rv = st['rv']
+            if rv['rk'] == 'aggregate' and rv['agg'] == 'closure:' + fn:
+                holders.add(st['lhs']['l'])
+    if not holders:
+        return True
+    # follow moves / refs of the closure value to the calls that receive it
+    changed = True
+    while changed:
+        changed = False
+        for blk in parent.blocks:
+            for st in blk['stmts']:
+                ps = parent.rvalue_places(st['rv'])
+                if ps and ps[0]['l'] in holders and st['lhs']['l'] not in holders and st['rv']['rk'] in ('use', 'ref'):
+                    holders.add(st['lhs']['l'])
+                    changed = True
+    users = []
+    for bb, t in parent.calls():
+        if any(op_local(a) in holders for a in t['args'] if op_local(a) is not None):
+            users.append(t['callee'] or t['raw'])
+    if not users:
+        return True
+    return not all(u.startswith(ONCE_CONSUMERS) for u in users)
+
+
 def run(rep):
     mir = Mir()
     rep.explanation = __doc__
@@ -228,6 +266,10 @@ def run(rep):
                     if bb in body.reachable_from(succs):
                         single = False
                         break
+                # a call site inside a closure runs once per *invocation of the closure*: handed to an iterator adapter / consumer (any, map,
+                # for_each, filter, fold ..) it runs once per element - several times per activation of the enclosing function
+                if single and body.kind == 'Closure' and closure_runs_repeatedly(mir, fn):
+                    single = False
                 callee_guard = callee in self_guarded and any(
                     op_place(t['args'][p - 1]) is not None and (canon(body, op_place(t['args'][p - 1])) in key_roots or is_handle_ty(body.locals[op_local(t['args'][p - 1])]))
                     for p in self_guarded[callee] if p - 1 < len(t['args']))
